@@ -31,6 +31,7 @@ def build_bench(interface="glpk"):
     C = Metabolite("C", name="met C", compartment="e", formula="C2H4", charge=0)
     A.annotation = {"kegg.compound": "C00001"}
     A.notes = {"note": "a"}
+    B.annotation = {"chebi": ["CHEBI:1", "CHEBI:2"]}   # a mutable value below the first level
     r1 = Reaction("r1", name="rxn 1", subsystem="S1", lower_bound=0, upper_bound=10)
     r1.add_metabolites({A: -1, B: 1})
     r1.gene_reaction_rule = "g1 and g2"
@@ -43,6 +44,7 @@ def build_bench(interface="glpk"):
     exc = Reaction("EX_C", name="C exchange", lower_bound=0, upper_bound=1000)
     exc.add_metabolites({C: -1})
     m.add_reactions([r1, r2, exa, exc])
+    m.genes.g1.annotation = {"ncbigene": ["946", "947"]}
     m.compartments = {"c": "cytosol", "e": "extracellular"}
     m.objective = "EX_C"
     g = Group("G1", name="group 1", members=[r1, A])
